@@ -46,6 +46,24 @@ which checks report it.
 * S57 (`jnp.isclose(gamma, 1.0)` for the `gamma != 1` test) was reported by C20 R20.5 only; C01 and C08 ended in
   ANALYSIS-ERROR on the unmodelled call.  Approximate comparisons are now known, visible functions: C08 R8.3 reports the
   threshold term, C01 R1.1 says that the bound is void for gamma within the tolerance of 1.
+* Fifth wave, four first-evaluation misses.  (i) PVI's `value_history = None` until the first step (allocated lazily): a fresh
+  solver is the Orbax restore *template*, and Orbax skips `None` leaves, so a resumed run lost its history - *missed*, R9.6 / R10.7
+  looked at the kind of what is written, not at `None`.  They now require a declared array leaf not to be `None` in the fresh
+  solver; generalising that clause to "the template has a leaf for everything a checkpoint may hold" (R10.8) is what exposed the
+  genuine defect D7.  (ii) the expected-reward reduction given `dtype=rewards.dtype` in `core.problem` (`jnp.sum(probs * rewards,
+  axis=-1, dtype=...)`: integer rewards truncate the expectation) - *missed*: reducers dropped their `dtype` keyword and R20.11 did
+  not cover `core.problem`.  A reducer's accumulate dtype now stays in the term unless it is a statically named float, and
+  R20.11 covers `core.problem`.  (iii) a module-level dict caching `index_fn` by `tuple(mins + maxs)` (two spaces with equal sums
+  of bounds share one index function) - *missed*: C19 compared the index term of one call.  R19.5 forbids module-level mutable
+  state reachable from the space constructors; module-constant substitution no longer treats a mutated display as a constant.
+  (iv) `get_convergence_format(self.conv_threshold)` without `float(...)` in RVI / PVI (a JAX scalar threshold reaches
+  `math.log10`-style code and the format spec; an `epsilon` given as an array breaks the first log line) - *missed*: R20.5 bounded
+  the precision but did not look at the argument's kind.  R20.5 now requires every call site to pass a Python float (also through
+  a temporary).
+* Two **genuine defects** surfaced while generalising rules for this wave, both on the unchanged tree: D7 (stored policy of the
+  value-iteration family is not restored; known finding, section 10.4) and D8 (RVI's gain starts at 0 instead of the reference
+  state's initial value; my own R4.2 had encoded the defect as the expected shape - it was reworded, R4.5 added, and the defect
+  repaired in `/repo` `fc72cb4`, section 10.3).
 * S02, S04, S12 first ended in ANALYSIS-ERROR (exit 2: neither a verdict nor a false alarm): the
   solve-loop anchor was keyed on the literal `range(max_iterations)`, the builtin `bool` was unknown
   to the interpreter, and `np.tile` is outside the symbolic space vocabulary.  The sweep loop is now
@@ -158,7 +176,7 @@ try:
     round2 = open('/verif/design_round2.md').read()
 except OSError:
     round2 = ''
-for extra in ('/verif/design_round3.md', '/verif/design_round4.md'):
+for extra in ('/verif/design_round3.md', '/verif/design_round4.md', '/verif/design_round5.md'):
     try:
         round2 += "\n" + open(extra).read()
     except OSError:
